@@ -37,7 +37,8 @@ impl FixtureDatabase {
         debug!("Word at cursor: {:?}", word_at_cursor);
 
         // Check if we're inside a fixture definition with the same name (self-referencing)
-        let current_fixture_def = self.get_fixture_definition_at_line(file_path, target_line);
+        let current_fixture_def =
+            self.get_fixture_definition_enclosing_line(file_path, target_line, &word_at_cursor);
 
         // First, check if this word matches any fixture usage on this line
         if let Some(usages) = self.usages.get(file_path) {
@@ -75,20 +76,22 @@ impl FixtureDatabase {
         None
     }
 
-    /// Get the fixture definition at a specific line (if the line is a fixture definition)
-    fn get_fixture_definition_at_line(
+    /// Get the fixture definition named `name` whose span contains `line`.
+    ///
+    /// A parameter of a fixture belongs to that fixture even when the signature is
+    /// wrapped over several lines, so the whole `line..=end_line` span is considered,
+    /// not only the `def` line. The innermost (last starting) definition wins.
+    pub(crate) fn get_fixture_definition_enclosing_line(
         &self,
         file_path: &Path,
         line: usize,
+        name: &str,
     ) -> Option<FixtureDefinition> {
-        for entry in self.definitions.iter() {
-            for def in entry.value().iter() {
-                if def.file_path == file_path && def.line == line {
-                    return Some(def.clone());
-                }
-            }
-        }
-        None
+        let defs = self.definitions.get(name)?;
+        defs.iter()
+            .filter(|def| def.file_path == file_path && def.line <= line && line <= def.end_line)
+            .max_by_key(|def| def.line)
+            .cloned()
     }
 
     /// Find fixture definition at a given position, checking both usages and definitions.
@@ -410,7 +413,8 @@ impl FixtureDatabase {
         };
 
         for (file_path, usage) in usages_for_fixture.iter() {
-            let fixture_def_at_line = self.get_fixture_definition_at_line(file_path, usage.line);
+            let fixture_def_at_line =
+                self.get_fixture_definition_enclosing_line(file_path, usage.line, &usage.name);
 
             let resolved_def = if let Some(ref current_def) = fixture_def_at_line {
                 if current_def.name == usage.name {
